@@ -96,6 +96,25 @@ CHECKS = {
         design='3 (C05)',
         note='one injected failure per victim (deviation bound 1); failures '
              'of the cleanup ops of the abort itself are outside the oracle'),
+    'C06': dict(
+        technique='explicit-state exploration of all undo-centred operation '
+                  'sequences up to a depth on the real FileStorage against a '
+                  'reference undo rule, plus enumerated DB.undo scenarios',
+        text='All histories (depth 6 quick / 7 thorough) over create / modify '
+             '/ two-object transactions / identical rewrite / undo of the '
+             'k-th newest transaction / two undos in one transaction / reopen '
+             '/ pack, with one object of a class without resolver and one of a '
+             'class with a scripted recording three-way merge. After every '
+             'step the battery and an independent parse of the file are '
+             'compared with the model, a refused undo must leave the file '
+             'byte-identical, and the resolver must have been shown exactly '
+             '(undone, current, previous). DB.undo is run for 6 histories x '
+             'every target x cached/uncached observer x 4 kinds of boundary, '
+             'including undo of the undo.',
+        design='3 (C06)',
+        note='undo of a transaction that itself wrote one oid twice is '
+             'outside the modelled alphabet; after a pack the list model is '
+             'not continued'),
     'C09': dict(
         technique='exhaustive enumeration of (history, data-file image, '
                   'index version / truncation / leftover files) triples on '
